@@ -27,7 +27,7 @@ func TestCheck(t *testing.T) {
 	run.Assume("queue: the ledger serialises additions (as Blockchain.addLock does) and its height is monotone; the log is recorded inside that serialisation")
 	run.Assume("queue progress is restated as bounded progress: after producers stop the missing next block is re-offered; a stall must repeat on three fresh attempts to count")
 	run.Assume("statesync: peers are simulated at the statesync.Module API (Init, AddHeaders, GetUnknownMPTNodesBatch/AddMPTNodes, InitContractStorageSync/AddContractStorageItems, AddBlock); the P2P/NeoFS transports are not run")
-	run.Assume("statesync: wrong data is injected only where an expected hash exists (headers incl. witness, hashable block/transaction fields, MPT nodes); witness-only corruption of blocks is C06's subject; raw storage items carry no hash, a wrong value is always followed by the right one and foreign keys are not injected")
+	run.Assume("statesync: wrong data is injected only where a reference exists to reject it by (headers incl. witness, hashable block/transaction fields, the block's header witness against the already known header, MPT nodes); transaction witnesses and the trusted header's own witness have none; raw storage items carry no hash, a wrong value is always followed by the right one and foreign keys are not injected")
 	run.Assume("restarts are graceful (Close, reopen on the same store); crashes are batch prefixes of the recorded store log, backend atomicity trusted")
 	part := os.Getenv("VERIF_PART")
 	do := func(p string) bool { return part == "" || part == "all" || part == p }
